@@ -52,7 +52,7 @@ GUARD_CFG = "servlin_verif"
 
 # which parts of the source (as named in the problem texts of props/srcparams.py) each property's model depends on
 SRC_DEPS = {
-    "C01": ["src/head.rs"], "C02": ["src/head.rs"],
+    "C01": ["src/head.rs"], "C02": ["src/head.rs: cannot translate the regex", "src/head.rs try_read"],
     "C03": ["src/content_type.rs", "src/request.rs", "src/headers.rs", "src/head.rs try_read"],
     "C04": ["src/util.rs", "src/http_conn.rs"], "C05": ["src/util.rs", "src/http_conn.rs HttpConn.buf", "src/http_conn.rs state guards", "src/http_conn.rs write_response", "src/http_conn.rs read_body"],
     "C06": ["src/util.rs", "src/content_type.rs", "src/response.rs write_http_response"], "C07": ["src/util.rs", "src/response.rs write_http_response"], "C08": ["src/util.rs", "src/http_conn.rs write_response", "src/http_conn.rs handle_http_conn", "src/response.rs write_http_response"],
